@@ -673,7 +673,9 @@ impl ByteReader for SliceReader<'_> {
     }
 
     fn check_eor(&self, num_bytes: usize) -> Result<(), DeserializationError> {
-        if self.pos + num_bytes > self.source.len() {
+        // `num_bytes` may come from untrusted input, so `self.pos + num_bytes` could overflow;
+        // compare against the number of remaining bytes instead (`pos` never exceeds the length)
+        if num_bytes > self.source.len() - self.pos {
             return Err(DeserializationError::UnexpectedEOF);
         }
         Ok(())
